@@ -185,6 +185,7 @@ const char *fault_name(unsigned kind) {
     case F_COND_ANY: return "cond_any_waiter";
     case F_STALL: return "thread_stall";
     case F_OPEN_FAIL: return "open_fails";
+    case F_WAIT_FATAL: return "wait_fatal_error";
   }
   return "?";
 }
@@ -514,6 +515,7 @@ void start(const Plan &plan) {
   g_frate[kind_index(F_COND_ANY)] = 500;
   g_frate[kind_index(F_STALL)] = 25;
   g_frate[kind_index(F_OPEN_FAIL)] = 300;
+  g_frate[kind_index(F_WAIT_FATAL)] = 1000;
 
   g_plan_seed = plan.seed;
   g_entropy_state = 0;
@@ -949,6 +951,7 @@ static int wait_common(int64_t timeout_ms, Probe probe, Setup block_setup) {
     HookResult hr;
     if (hook_owner) { NoSched ns; hr = (*g_hook)(g_wait_calls); }
     else sched_point();
+    if (!eintr_done && fault(F_WAIT_FATAL)) { errno = ENOMEM; return -1; }
     if (!eintr_done && fault(F_WAIT_EINTR)) { errno = EINTR; return -1; }
     eintr_done = true;
     int n = probe();
